@@ -73,9 +73,13 @@ def run(ctx):
         except bundle.Asn1cFailed as e:
             ctx.log("asn1c rejected generated module:", e.out.strip().split("\n")[0][:200])
             notbuilt.append(("asn1c", e.out.strip().split("\n")[0][:100]))     # C10's subject, not a C01 violation
+            if id(m) in fixedvals:      # a fixed (directed) module must build: otherwise the directed cases are silently lost
+                ctx.broken.append({"kind": "harness", "name": "directed module does not build", "module": m["name"], "msg": e.out.strip().split("\n")[0][:300]})
             b.cleanup(); continue
         except build.BuildError as e:
             notbuilt.append(("cc", str(e)[:100]))
+            if id(m) in fixedvals:
+                ctx.broken.append({"kind": "harness", "name": "directed module does not compile", "module": m["name"], "msg": str(e)[:300]})
             b.cleanup(); continue
         built += 1
         vg = genmod.ValGen(ctx.rng, env)
